@@ -65,6 +65,10 @@ def make_config(seed, tier="quick"):
         max_actions=120,
         settle_s=5.0,
         settle_extra_s=1.0,
+        # fault placement (separate stream, 1 run in 6): the last request of the run arrives while the application's
+        # disconnect() (Logout under back-pressure) is suspended in drain() - the session is still up, the request
+        # is read and has to be answered like any other; the reply leaves with the Logout when the transport resumes
+        closing_request=random.Random(seed ^ 0xC06C1).random() < 1 / 6,
     )
 
 
@@ -90,6 +94,7 @@ class ResendSim(PeerSim):
         self.rr_busy = False
         self.n_live = 0
         self.gap_done = False
+        self.closing = False
         self.fed_ptr = 0
         self.cur = None
         self.req_log = []
@@ -189,6 +194,10 @@ class ResendSim(PeerSim):
 
     def enabled_actions(self):
         out = self.net_enabled()
+        if self.closing:
+            # back-pressure is kept up until the fault phase ends: the application's disconnect() stays in drain(),
+            # the session stays up, the request is read and answered in full (the reply leaves at settle)
+            out = [(a, w) for (a, w) in out if a[0] != "resume"]
         cfg = self.cfg
         if not self.peer.connected:
             return out
@@ -203,6 +212,8 @@ class ResendSim(PeerSim):
             return out
         if self.n_req < cfg["n_req"] and self.quiet():
             out.append((("rr",), 2.0))
+            if cfg.get("closing_request") and not self.closing and self.n_req == cfg["n_req"] - 1:
+                out.append((("closing_rr",), 4.0))
         if self.n_live < cfg["n_live"] and self.quiet():
             out.append((("live",), 1.0))
         if cfg["use_gap"] and not self.gap_done and self.quiet():
@@ -241,6 +252,8 @@ class ResendSim(PeerSim):
                     else:
                         e = r.choice(["abc", "", "0x"])
             return ["rr", b, e]
+        if proto[0] == "closing_rr":
+            return ["closing_rr", 1, 0]
         if proto[0] == "live":
             if self.rr_busy:
                 return ["live", r.choice(["app", "app", "declined"])]
@@ -257,13 +270,37 @@ class ResendSim(PeerSim):
                     and self.n_live < self.cfg["n_live"] and self.reply_parked())
         if a[0] == "rr":
             return self.n_req < self.cfg["n_req"]
+        if a[0] == "closing_rr":
+            return self.n_req < self.cfg["n_req"] and not self.closing and self.quiet() and self.session_up()
         if a[0] == "live":
             return self.n_live < self.cfg["n_live"] and self.quiet()
         if a[0] == "gap":
             return not self.gap_done
         return False
 
+    async def _app_logout(self):
+        try:
+            await self.eut.disconnect(ConnectionState.DISCONNECTED_WCONN_TODAY, logout_message="end of day")
+            self.rec("app_logout_done")
+        except Exception as e:
+            self.rec("app_logout_raised", type(e).__name__)
+
     def fire_family(self, a):
+        if a[0] == "closing_rr":
+            self.closing = True
+            self.fault("resend_request_while_a_disconnect_is_in_progress")
+            for conn in self.net.conns:
+                for tr in conn.tr:
+                    if tr is not None and tr.label == "E" and not tr.paused and not tr._closing:
+                        tr.paused = True
+                        self.rec("pause", tr.label, conn.cid)
+                        tr.protocol.pause_writing()
+            self.spawn(self._app_logout(), "app-logout")
+            self.n_req = self.cfg["n_req"]
+            self.rr_busy = True
+            self.last_req = (a[1], a[2])
+            self.peer.send("2", [("7", a[1]), ("16", a[2])], spec={"rr": (a[1], a[2])})
+            return
         if a[0] == "rr":
             self.n_req += 1
             self.rr_busy = True
@@ -321,6 +358,7 @@ class ResendSim(PeerSim):
                 live_out=self.live().next_num_out,
                 stored_out=self.journal.stored()[1],
                 state=self.eut.connection_state,
+                closing=self.closing and self.eut.connection_state > ConnectionState.DISCONNECTED_BROKEN_CONN,
             )
             self.cur = snap
 
@@ -446,7 +484,14 @@ class ResendSim(PeerSim):
                 seen_retx.add(n)
                 pos = n + 1
         if valid and not (end + 1 <= pos <= end_hi + 1):
-            if self.eut.connection_state > ConnectionState.DISCONNECTED_BROKEN_CONN:
+            if snap.get("closing"):
+                # under the held back-pressure the reply parks in its own first drain() and is cut off when the
+                # application's disconnect() completes at settle - but it was begun: the session was up when the
+                # request was read
+                if pos == b:
+                    bad("request-not-answered-while-disconnect-in-progress",
+                        f"no reply at all, although the session was still up (state {snap['state'].name}) when the request was read")
+            elif self.eut.connection_state > ConnectionState.DISCONNECTED_BROKEN_CONN:
                 bad("reply-incomplete", f"chain covers {b}..{pos - 1}, requested {b}..{end}")
         # 2. completeness: every replayable application message is retransmitted
         for n in R:
@@ -483,7 +528,8 @@ class ResendSim(PeerSim):
                 bad("journal-outside-range-changed", f"journal row {n} outside the requested range was {what}",
                     extra=f"/{what}")
         st = self.eut.connection_state
-        if st != snap["state"]:
+        if st != snap["state"] and not (self.closing and st <= ConnectionState.DISCONNECTED_BROKEN_CONN):
+            # (closing request: the application's own disconnect() completes behind the reply)
             bad("state-changed", f"connection_state {snap['state'].name} -> {st.name}")
         if valid:
             self.probe("valid_request_answered")
